@@ -16,7 +16,7 @@ def _ts():
     return _TS
 
 
-def decode(data, plugins=False, every=True, allow_proc=False):
+def decode(data, plugins=False, every=True, allow_proc=False, hexcfg=False):
     """returns dict(outcome, doc (OrderedDict or None), final_index, boundaries, events, stderr, stdout)
     allow_proc: when the case at hand runs the tool as a real process (seams.set_proc_variant) and no parser
     plug-in is wanted, decode through `peltool -f` in that process instead (no cursor events then)"""
@@ -28,6 +28,8 @@ def decode(data, plugins=False, every=True, allow_proc=False):
     cfg = Config()
     cfg.every_pel = every
     cfg.allow_plugins = plugins
+    if hexcfg:
+        cfg.hex = True            # (-x rides along, as it does when -j is given with it: the decode is the decode)
     st = _ts()(bytes(data))
     bounds = []
     orig = pt.sectionFun
